@@ -46,6 +46,9 @@ func checkRuntime(c *Ctx, prop string) {
 	if prop == "C09" || prop == "C04" {
 		rtNoWatch(c, c.scale(300, 10000))
 	}
+	if prop == "C09" {
+		rtReEnable(c, c.scale(40, 1000))
+	}
 	t0 := time.Now()
 	for i := 0; i < n; i++ {
 		cfg := rtConfig{
@@ -313,24 +316,7 @@ func rtOracle(r *rtRun, prop string) []string {
 			}
 		}
 		out = append(out, rtBlockingOracle(r)...)
-		// unless the queue overflowed, every rejected update whose error event was submitted before the Config
-		// context ended reaches OnWatchedError (the callback goroutine drains its queue before exiting)
-		if r.shutdownOK && !r.cfg.stuck {
-			submitted, delivered := 0, 0
-			for _, sb := range r.submits {
-				if (sb.kind == "stackErr" || sb.kind == "verifyErr") && sb.qlen < 64 && sb.doneStep != 0 && (r.rootCancelStep == 0 || sb.doneStep < r.rootCancelStep) {
-					submitted++
-				}
-			}
-			for _, d := range r.deliveries {
-				if d.h == -2 && (d.err == "stack" || d.err == "verify") {
-					delivered++
-				}
-			}
-			if delivered < submitted {
-				bad("%d rejected updates had their error event submitted (queue not full, Config context alive) but OnWatchedError was called only %d times for stack/verify errors", submitted, delivered)
-			}
-		}
+		out = append(out, rtRejectedDelivery(r)...)
 		// a rejected update must not change the view: serial of installs is dense (checked in C05) and
 		// every update has exactly one outcome
 		for _, u := range r.updates {
@@ -432,6 +418,9 @@ func rtOracle(r *rtRun, prop string) []string {
 				}
 			}
 		}
+		// a rejected update's error reaches OnWatchedError whenever the monitor announced it (it announces it
+		// unless the delay is in force and the option is set)
+		out = append(out, rtRejectedDelivery(r)...)
 		// withholding of global callbacks: only while delay in force and option set
 		for _, g := range r.cbGot {
 			if g.kind == "new" && g.supp && !(r.cfg.delay && r.cfg.suppress) {
@@ -454,6 +443,32 @@ func rtOracle(r *rtRun, prop string) []string {
 			if wantFwd != gotFwd {
 				bad("%d source-reported errors should have been forwarded to OnWatchedError (delay in force and suppress option not both true) but %d were", wantFwd, gotFwd)
 			}
+		}
+	}
+	return out
+}
+
+// rtRejectedDelivery: unless the queue overflowed, every rejected update whose error event the monitor submitted
+// before the Config context ended reaches OnWatchedError (the callback goroutine drains its queue before exiting)
+func rtRejectedDelivery(r *rtRun) []string {
+	var out []string
+	bad := func(f string, a ...any) { out = append(out, fmt.Sprintf(f, a...)) }
+	// unless the queue overflowed, every rejected update whose error event was submitted before the Config
+	// context ended reaches OnWatchedError (the callback goroutine drains its queue before exiting)
+	if r.shutdownOK && !r.cfg.stuck {
+		submitted, delivered := 0, 0
+		for _, sb := range r.submits {
+			if (sb.kind == "stackErr" || sb.kind == "verifyErr") && sb.qlen < 64 && sb.doneStep != 0 && (r.rootCancelStep == 0 || sb.doneStep < r.rootCancelStep) {
+				submitted++
+			}
+		}
+		for _, d := range r.deliveries {
+			if d.h == -2 && (d.err == "stack" || d.err == "verify") {
+				delivered++
+			}
+		}
+		if delivered < submitted {
+			bad("%d rejected updates had their error event submitted (queue not full, Config context alive) but OnWatchedError was called only %d times for stack/verify errors", submitted, delivered)
 		}
 	}
 	return out
